@@ -1,5 +1,5 @@
 (* C20 - RecursivePageTable validates its table and computes exact recursive addresses. *)
-From X86 Require Import Addr.Canon Addr.Index Paging.RecNew Paging.RecNewProofs.
+From X86 Require Import Addr.Canon Addr.Index Paging.Mapped Paging.Refine Paging.RecNew Paging.RecNewProofs Paging.RecResolve.
 Open Scope Z_scope.
 
 (* new() succeeds exactly when the address of the table reference has the recursive form (all
@@ -46,3 +46,34 @@ Theorem C20_examples :
   p1_page 1073741824 511 = Ok 18446743523955834880.
 Proof. exact rec_new_511. Qed.
 Print Assumptions C20_examples.
+
+(* the recursive-mapping trick itself: with slot r of the level-4 table pointing to the level-4
+   table, the hardware walk of p3_page / p2_page / p1_page ends in the level-3 / level-2 /
+   level-1 table of the page (stated on raw memory words; tab_entry = present, not huge,
+   pointing to that frame) *)
+Theorem C20_p3_page_reaches_the_level3_table : forall s r, 0 <= r < 512 ->
+  tab_entry (rd s (root s + 8 * r)) (root s) ->
+  forall page pg f3, p3_page page r = Ok pg ->
+  tab_entry (rd s (root s + 8 * p4_index page)) f3 ->
+  exists w, hw_walk s pg = Some w /\ w_phys w = f3 /\ w_size w = S4K.
+Proof. exact p3_page_resolves. Qed.
+Print Assumptions C20_p3_page_reaches_the_level3_table.
+
+Theorem C20_p2_page_reaches_the_level2_table : forall s r, 0 <= r < 512 ->
+  tab_entry (rd s (root s + 8 * r)) (root s) ->
+  forall page pg f3 f2, p2_page page r = Ok pg ->
+  tab_entry (rd s (root s + 8 * p4_index page)) f3 ->
+  tab_entry (rd s (f3 + 8 * p3_index page)) f2 ->
+  exists w, hw_walk s pg = Some w /\ w_phys w = f2 /\ w_size w = S4K.
+Proof. exact p2_page_resolves. Qed.
+Print Assumptions C20_p2_page_reaches_the_level2_table.
+
+Theorem C20_p1_page_reaches_the_level1_table : forall s r, 0 <= r < 512 ->
+  tab_entry (rd s (root s + 8 * r)) (root s) ->
+  forall page pg f3 f2 f1, p1_page page r = Ok pg ->
+  tab_entry (rd s (root s + 8 * p4_index page)) f3 ->
+  tab_entry (rd s (f3 + 8 * p3_index page)) f2 ->
+  tab_entry (rd s (f2 + 8 * p2_index page)) f1 ->
+  exists w, hw_walk s pg = Some w /\ w_phys w = f1 /\ w_size w = S4K.
+Proof. exact p1_page_resolves. Qed.
+Print Assumptions C20_p1_page_reaches_the_level1_table.
